@@ -185,6 +185,10 @@ def main(chk, replay=None):
             viol("two different normalized values have the same canonical JSON (same arg hash)", {"clause": "injective"},
                  a=by_json[rj][1], b=repr(v)[:200], json=rj)
         by_json.setdefault(rj, (canon, repr(v)[:200]))
+        # the normalized value is the value its canonical encoding denotes (observable behaviour included)
+        if received_form(rn) != received_form(independent_normalize(v)):
+            viol("normalize(v) is not the value the canonical encoding of v denotes", {"clause": "normalize-denotes"},
+                 value=repr(v)[:200], normalized=repr(rn)[:200])
         # idempotence: normalize(normalize(v)) == normalize(v) and encodes equally
         rj2 = ArgumentHasher._normalized_json(ArgumentHasher._encode(rn))
         if rj2 != rj:
